@@ -265,8 +265,10 @@ TINY = [["transform.translate", [1.0, -2.0, 0.5]], ["transform.scale", [2.0, 0.5
 
 
 # the same pivot set again after a restore / a block brought back another one; rotations and scalings about it
-PIVOT = [["transform.set_pivot", [[1.0, 1.0, 0.0]]], ["transform.rotate", [90.0, "z"]], ["transform.scale", [2.0]],
-         ["transform.chain_transform", [["ref", "shear"]]]]
+PIVOT = [["transform.set_pivot", [[1.0, 1.0, 0.0]]], ["transform.rotate", [90.0, "z"]], ["transform.scale", [2.0]]]
+# a pivot on the Z axis, rotations about x, a caller-owned matrix chained about it
+PIVOT_Z = [["transform.set_pivot", [[0.0, 0.0, 5.0]]], ["transform.rotate", [90.0, "x"]], ["transform.scale", [2.0]],
+           ["transform.chain_transform", [["ref", "shear"]]], ["transform.set_pivot", [[1.0, 1.0, 0.0]]]]
 
 # state names with surrounding blanks / a line break / non-ASCII letters, and a name that only differs from another in case
 ODD_NAMES = {"a": "  fixture left\n", "b": "Ünïcode B "}
@@ -279,12 +281,14 @@ def systems(tier):
                 ("ctx-d6", C13System(TINY, errors=False), 6, None),
                 ("odd-names-d4", C13System(TINY, rename=ODD_NAMES), 4, None),
                 ("deferred-ctx-d5", C13System(TINY, errors=False, deferred=True), 5, None),
-                ("pivot-d5", C13System(PIVOT, errors=False, nest=1), 5, None)]
+                ("pivot-d5", C13System(PIVOT, errors=False, nest=1), 5, None),
+                ("pivot-z-d3", C13System(PIVOT_Z, errors=False, nest=1), 3, None)]
     return [("full-d4", C13System(FULL), 4, None), ("small-d6", C13System(SMALL), 6, None),
             ("ctx-d7", C13System(TINY, errors=False), 7, None),
             ("odd-names-d5", C13System(TINY, rename=ODD_NAMES), 5, None),
             ("deferred-ctx-d6", C13System(TINY, errors=False, deferred=True), 6, None),
-            ("pivot-d6", C13System(PIVOT, errors=False, nest=1), 6, None)]
+            ("pivot-d6", C13System(PIVOT, errors=False, nest=1), 6, None),
+            ("pivot-z-d4", C13System(PIVOT_Z, errors=False, nest=1), 4, None)]
 
 
 def run(tier, seed):
